@@ -55,9 +55,9 @@ AutoAnns(c, mc) == LET ph == Placeholders(c.prefix \o mc.route) IN
                    [i \in DOMAIN ph |-> [kind |-> "Path", value |-> ph[i], alias |-> "", validate |-> "", desc |-> ""]]
 
 MkCtrl(cc, k) == [id |-> CtrlId(k), pkg |-> cc.pkg, file |-> cc.file, name |-> cc.name, prefix |-> cc.prefix, tag |-> cc.tag,
-                  sec |-> cc.sec, desc |-> cc.desc]
+                  sec |-> cc.sec, desc |-> cc.desc, outside |-> ("outside" \in DOMAIN cc /\ cc.outside)]
 MkMethod(c, mc, k) ==
-    [ctrl |-> c.id, file |-> IF mc.file = "" THEN c.file ELSE mc.file, name |-> NameOfMethod(k), verb |-> mc.verb,
+    [ctrl |-> c.id, file |-> IF mc.file = "" \/ c.outside THEN c.file ELSE mc.file, name |-> NameOfMethod(k), verb |-> mc.verb,
      route |-> IF "uniq" \in DOMAIN mc THEN "/m" \o ToString(k) \o mc.route ELSE mc.route,
      hidden |-> mc.hidden, deprecated |-> mc.deprecated, sec |-> mc.sec,
      sig |-> IF "sig" \in DOMAIN mc THEN mc.sig ELSE AutoSig(c, mc),
@@ -68,10 +68,18 @@ MkMethod(c, mc, k) ==
 MethodsOfLast == IF proj.ctrls = <<>> THEN 0
                  ELSE Cardinality({i \in DOMAIN proj.methods : proj.methods[i].ctrl = proj.ctrls[Len(proj.ctrls)].id})
 
+\* a glob matches whole files: no file holds both matched ("inside") and unmatched ("outside") declarations
+FilesOf(p, out) == {<<c.pkg, c.file>> : c \in {x \in Range(p.ctrls) : x.outside = out}}
+                   \cup {<<CtrlOf(p, m).pkg, m.file>> : m \in {x \in Range(p.methods) : CtrlOf(p, x).outside = out}}
+FilesApart(c, mfile) == LET fs == {<<c.pkg, c.file>>} \cup (IF mfile = "" THEN {} ELSE {<<c.pkg, mfile>>})
+                        IN  fs \cap FilesOf(proj, ~c.outside) = {}
+
 AddCtrl(cc) ==
     /\ pc = "author" /\ Len(proj.ctrls) < MaxCtrls
     /\ (proj.ctrls # <<>> => MethodsOfLast >= 1)
     /\ \A c \in Range(proj.ctrls) : ~(c.name = cc.name /\ c.pkg = cc.pkg)
+    /\ FilesApart(MkCtrl(cc, 0), "")
+    /\ (proj.ctrls = <<>> => ~MkCtrl(cc, 0).outside)          \* (a project has a matched controller: the first one)
     /\ proj' = [proj EXCEPT !.ctrls = Append(@, MkCtrl(cc, Len(proj.ctrls) + 1))]
     /\ UNCHANGED <<pc, pending, visited, order, serial, fsys, valid30, valid31, exit>>
 
@@ -80,9 +88,13 @@ Mentioned(mc) == (IF "sig" \in DOMAIN mc THEN {CoreType(x.type) : x \in Range(mc
 LooksDeclared(n) == Len(n) > 3 /\ SubSeq(n, 1, 3) \in {"p1.", "p2."}
 TypesKnown(mc) == \A n \in Mentioned(mc) : LooksDeclared(n) => IsDeclared(proj, n)
 
+\* Go forbids import cycles: when p2 holds model types (which p1's types may use), a controller in p2 mentions no p1 type
+NoCycle(mc) == (proj.ctrls[Len(proj.ctrls)].pkg = "p2" /\ \E i \in DOMAIN proj.types : proj.types[i].pkg = "p2")
+               => \A n \in Mentioned(mc) : ~(Len(n) > 3 /\ SubSeq(n, 1, 3) = "p1.")
+MethodOk(mc) == TypesKnown(mc) /\ NoCycle(mc) /\ FilesApart(proj.ctrls[Len(proj.ctrls)], IF proj.ctrls[Len(proj.ctrls)].outside THEN "" ELSE mc.file)
 AddMethod(mc) ==
     /\ pc = "author" /\ proj.ctrls # <<>> /\ MethodsOfLast < MaxMethods
-    /\ TypesKnown(mc)
+    /\ MethodOk(mc)
     /\ proj' = [proj EXCEPT !.methods = Append(@, MkMethod(proj.ctrls[Len(proj.ctrls)], mc, Len(proj.methods) + 1))]
     /\ UNCHANGED <<pc, pending, visited, order, serial, fsys, valid30, valid31, exit>>
 
@@ -104,9 +116,10 @@ LoadConfig ==
     /\ IF ConfigValid(proj.cfg) THEN pc' = "load" /\ UNCHANGED exit ELSE Fail("invalid configuration")
     /\ UNCHANGED <<proj, pending, visited, order, serial, fsys, valid30, valid31>>
 
+\* initWithGlobs: from here on the analysis sees the files the globs matched and nothing else
 LoadPackages ==
-    /\ pc = "load" /\ pending' = Files(proj) /\ pc' = "visit"
-    /\ UNCHANGED <<proj, visited, order, serial, fsys, valid30, valid31, exit>>
+    /\ pc = "load" /\ proj' = Scoped(proj) /\ pending' = Files(Scoped(proj)) /\ pc' = "visit"
+    /\ UNCHANGED <<visited, order, serial, fsys, valid30, valid31, exit>>
 
 \* files come out of a Go map: any order
 VisitFile(f) ==
@@ -187,11 +200,11 @@ SimAuthor ==
        /\ \E go \in One({"more", "more", "ctrl", "freeze"}) :
             CASE go = "freeze" -> Freeze
               [] go = "ctrl" -> IF Len(proj.ctrls) < MaxCtrls
-                                THEN \E cc \in One({x \in CtrlChoices : \A c \in Range(proj.ctrls) : ~(c.name = x.name /\ c.pkg = x.pkg)}) : AddCtrl(cc)
+                                THEN \E cc \in One({x \in CtrlChoices : FilesApart(MkCtrl(x, 0), "") /\ \A c \in Range(proj.ctrls) : ~(c.name = x.name /\ c.pkg = x.pkg)}) : AddCtrl(cc)
                                 ELSE Freeze
-              [] OTHER -> IF MethodsOfLast < MaxMethods THEN \E mc \in One({x \in MethodChoices : TypesKnown(x)}) : AddMethod(mc) ELSE Freeze
-    \/ /\ pc = "author" /\ proj.ctrls = <<>> /\ \E cc \in One(CtrlChoices) : AddCtrl(cc)
-    \/ /\ pc = "author" /\ proj.ctrls # <<>> /\ MethodsOfLast = 0 /\ \E mc \in One({x \in MethodChoices : TypesKnown(x)}) : AddMethod(mc)
+              [] OTHER -> IF MethodsOfLast < MaxMethods THEN \E mc \in One({x \in MethodChoices : MethodOk(x)}) : AddMethod(mc) ELSE Freeze
+    \/ /\ pc = "author" /\ proj.ctrls = <<>> /\ \E cc \in One({x \in CtrlChoices : ~MkCtrl(x, 0).outside}) : AddCtrl(cc)
+    \/ /\ pc = "author" /\ proj.ctrls # <<>> /\ MethodsOfLast = 0 /\ \E mc \in One({x \in MethodChoices : MethodOk(x)}) : AddMethod(mc)
 \* (RandomElement inside an initial predicate would be evaluated once for the whole simulation: enumerate the initial states
 \*  instead - the simulator picks one of them at random for every walk)
 SimInit == Init
@@ -221,5 +234,5 @@ Expect(p) == [ops |-> DocumentedOps(p), security |-> OpSecurity(p), enforceOk |-
               components |-> ExpectedComponents(p), plainError |-> PlainErrorPresent(p), nameClash |-> NameClash(p),
               routes |-> {[name |-> m.name, wellLinked |-> WellLinked(p, m), wellLinkedAsBuilt |-> WellLinkedD(p, m, TRUE), ptag |-> m.ptag]
                              : m \in {x \in Range(p.methods) : IsApi(x)}}]
-EmitCase == pc = "config" => PrintT("CASE " \o ToJson([cfg |-> proj.cfg, ctrls |-> proj.ctrls, methods |-> proj.methods, types |-> proj.types, expect |-> Expect(proj)]))
+EmitCase == pc = "config" => PrintT("CASE " \o ToJson([cfg |-> proj.cfg, ctrls |-> proj.ctrls, methods |-> proj.methods, types |-> proj.types, expect |-> Expect(Scoped(proj))]))
 =============================================================================
